@@ -166,7 +166,7 @@ class Check:
         excl, blocked, nore = [], [], 0
         for attempt in range(tries):
             tag = (' (known roles excluded)' if excl else '') + (f' (retry {nore})' if nore else '')
-            res, m = s.query(name + tag, eng, *ctx, goal, *excl, *blocked, timeout=(3000 if ((abstract or slice_) and nomodel_case is not None) else None))
+            res, m = s.query(name + tag, eng, *ctx, goal, *excl, *blocked, timeout=(int(os.environ.get('VERIF_FALLBACK_MS', '3000')) if ((abstract or slice_) and nomodel_case is not None) else None))
             if res == 'unsat':
                 if nore:
                     s.inconclusive.append(f'{name}: {nore} solver counterexample(s) did not reproduce natively and the rest of the space is proved; last: {s.last_noreplay}')
